@@ -164,7 +164,7 @@ NetInit == [lists |-> <<>>, consumed |-> 0, wat |-> <<>>, sess |-> <<>>, expectS
 
 EvBegin == /\ buf' = R.buf
            /\ caches' = <<>> /\ stages' = <<>> /\ pubs' = <<>> /\ fsubs' = <<>> /\ ctls' = <<>> /\ mons' = <<>>
-           /\ pend' = [mon |-> "", monmode |-> "", consumer |-> <<>>, closedTops |-> {}, closedAll |-> FALSE, srv |-> <<>>, rd |-> <<>>, kept |-> <<>>]
+           /\ pend' = [mon |-> "", monmode |-> "", consumer |-> <<>>, closedTops |-> {}, closedAll |-> FALSE, srv |-> <<>>, rd |-> <<>>, kept |-> <<>>, wanted |-> <<>>]
            /\ net' = [NetInit EXCEPT !.period = IF "period_us" \in DOMAIN R THEN R.period_us ELSE 0, !.variant = R.variant]
 
 EvCacheNew == /\ Report(IF X(1) \notin Filters THEN "unknown-filter" ELSE "", [cache |-> A, filter |-> X(1)])
@@ -403,7 +403,8 @@ EvSnap ==
                     IF R.ok /\ KnownList(R.list) /\ c \in DOMAIN caches /\ ItemsOf(R.list) # caches[c].it THEN "list-not-snapshot" ELSE "",
                     IF quiet /\ isF /\ fsubs[st].ready /\ ~Lossy(fsubs[st].parent)
                           /\ caches[c].it # Filtered(caches[ParentCache(st)].it, fsubs[st].f) THEN "filter-not-quiescent" ELSE "",
-                    IF quiet /\ isF /\ fsubs[st].ready /\ caches[c].f # fsubs[st].f THEN "filter-not-set" ELSE "">>),
+                    IF quiet /\ isF /\ fsubs[st].ready /\ caches[c].f # fsubs[st].f THEN "filter-not-set" ELSE "",
+                    IF quiet /\ isF /\ ~stages[st].stopping /\ st \in DOMAIN pend.wanted /\ ~SameMeaning(fsubs[st].f, pend.wanted[st]) THEN "refilter-lost" ELSE "">>),
             [node |-> A, stage |-> st, list |-> R.list, spec |-> IF c \in DOMAIN caches THEN caches[c].it ELSE <<>>,
              parent |-> IF isF THEN caches[ParentCache(st)].it ELSE <<>>, filter |-> IF isF THEN fsubs[st].f ELSE ""])
   /\ UNCHANGED <<buf, caches, stages, pubs, fsubs, ctls, mons, pend, net>>
@@ -467,6 +468,11 @@ EvCb ==
      /\ Report(IF m.active # R.kind THEN "callbacks-overlap" ELSE "", [mon |-> A, exit |-> R.kind, active |-> m.active])
      /\ mons' = [mons EXCEPT ![A].active = ""]
      /\ UNCHANGED <<buf, caches, stages, pubs, fsubs, ctls, pend, net>>
+
+\* Refilter() returned nil: the node took the request; at the next quiescence that filter must be in effect
+EvRetRefilter ==
+  /\ pend' = IF R.err = "" /\ "stage" \in DOMAIN R THEN [pend EXCEPT !.wanted = (StageOfNode(R.stage) :> R.filter) @@ @] ELSE pend
+  /\ UNCHANGED <<buf, caches, stages, pubs, fsubs, ctls, mons, net>>
 
 EvRetCreate ==
   /\ pend' = IF R.err = "" /\ R.kind \in {"sub", "fsub", "dsub"} THEN SetConsumer(R.stage, R.mode) ELSE pend
@@ -674,6 +680,7 @@ Dispatch ==
     [] e = "call.create"      -> EvCallCreate
     [] e = "mon.new"          -> EvMonNew
     [] e = "ret.create"       -> EvRetCreate
+    [] e = "ret.refilter"     -> EvRetRefilter
     [] e = "call.close"       -> EvCallClose
     [] e = "srv.snapshot"     -> EvSrvSnapshot
     [] e = "cb"               -> EvCb
@@ -712,7 +719,7 @@ Dispatch ==
 
 Init == /\ i = 1 /\ buf = 100
         /\ caches = <<>> /\ stages = <<>> /\ pubs = <<>> /\ fsubs = <<>> /\ ctls = <<>> /\ mons = <<>>
-        /\ pend = [mon |-> "", monmode |-> "", consumer |-> <<>>, closedTops |-> {}, closedAll |-> FALSE, srv |-> <<>>, rd |-> <<>>, kept |-> <<>>]
+        /\ pend = [mon |-> "", monmode |-> "", consumer |-> <<>>, closedTops |-> {}, closedAll |-> FALSE, srv |-> <<>>, rd |-> <<>>, kept |-> <<>>, wanted |-> <<>>]
         /\ net = NetInit
 
 Next == /\ i <= Len(Recs)
